@@ -3,7 +3,8 @@
 Tie C: Model/SREvidence.lean (findContentItems, collectEvidence, createReferences, document constructors'
 decision logic, get_evidence, KO document, from_segmentation reference builders) against the real classes on
 the same generated (tree, evidence list, class, flags) / (segmentation, request) inputs.
-Tie T: T15a (the two SCOORD3D guards of sr/sop.py and the verification guard of _SR.__init__).
+Tie T: T15a (the two SCOORD3D guards of sr/sop.py and the verification guard of _SR.__init__), T15b (loop body and final
+guard of collect_evidence as a decision over (already seen, referenced)).
 Oracle (independent of the model): the evidence partition recomputed as Python set algebra from the
 generator's *spec* of the tree (construction parameters) and the evidence list; the content tree compared by
 canonical dataset form in memory and after write -> srread; segmentation references recomputed from the
@@ -16,7 +17,7 @@ import io
 import itertools
 
 PROP = 'C15'
-TARGETS = ['T15a']
+TARGETS = ['T15a', 'T15b']
 LEAN_MODULES = ['HdVerif.Props.C15']
 MODEL_MODULES = ['HdVerif.Model.SREvidence']
 NAMESPACE = 'HdVerif.C15'
